@@ -23,11 +23,11 @@ def spec(name, layout, queue, seq_len, dst1, dst2, **kw):
 
 def specs(tier):
     if tier == 'quick':
-        return [spec('c15-noq-D3', 'D3', False, 2, 'development/4.3',
+        return [spec('c15-noq-D3', 'D3', False, 3, 'development/4.3',
                      'development/5.1')]
     return [spec('c15-noq-D3', 'D3', False, 3, 'development/4.3',
                  'development/5.1'),
-            spec('c15-q-D3', 'D3', True, 2, 'development/4.3',
+            spec('c15-q-D3', 'D3', True, 3, 'development/4.3',
                  'development/5.1'),
             spec('c15-noq-E3', 'E3', False, 2, 'development/4.3',
                  'development/5.1'),
@@ -49,7 +49,7 @@ def run(tier, seed, workers=None):
         required_statuses=['ResetComplete', 'LossyResetWarning'],
         nontrivial_stat='c15_commands',
         rule='after integration branches exist for two pull requests: every '
-             'sequence (<=2 quick, <=3 thorough) over {push, amend, rebase, '
+             'sequence (<=3) over {push, amend, rebase, '
              'rewind the source, evaluate, merge the other pull request '
              '(destination moves), manual commit on each integration branch, '
              'manual merge commit}, then reset / force_reset + the '
